@@ -162,6 +162,11 @@ impl Read for WatchClose {
             let err_mask = Events::EPOLLRDHUP | Events::EPOLLHUP | Events::EPOLLERR;
 
             for ev in v.iter().take(r) {
+                // input that is still pending on the descriptor being read is delivered
+                // before its hang-up is reported (the read returns 0 once it is drained)
+                if ev.data == 0 && Events::EPOLLIN.bits() & ev.events != 0 {
+                    continue;
+                }
                 if err_mask.bits() & ev.events != 0 {
                     return Err(io::Error::from(io::ErrorKind::BrokenPipe));
                 }
